@@ -51,14 +51,15 @@ PROPS["C03"] = {
 # ---------------------------------------------------------------- C12
 PROPS["C12"] = {
     "jobs": [
-        Job("soyhtml", "H_fault", "0..5,0..3,false", workers=16),
-        Job("soyhtml", "H_fault", "0..5,0..1,true", workers=16),
-        Job("soyhtml", "H_fault", "0..5,0..3,true", tier="thorough", workers=16),
+        Job("soyhtml", "H_fault", "0..5,0..3,0", workers=16),
+        Job("soyhtml", "H_fault", "0..5,0..1,1", workers=16),
+        Job("soyhtml", "H_fault", "0..5,0..3,2..3", workers=16, maxfan=300),
+        Job("soyhtml", "H_fault", "0..5,2..3,1", tier="thorough", workers=16),
     ],
-    "bounds_quick": "6 templates covering every write site of the tree walker (raw text, escaped/unescaped print, css, literal, special chars, msg text/html tag/placeholder, let and param content blocks, log, call, data=all call, foreach, switch) x 4 data strings; the failure decision of every Write call is a symbolic boolean (every failure index explored); short writes with a symbolic accepted prefix length for 2 data strings",
+    "bounds_quick": "6 templates covering every write site of the tree walker (raw text, escaped/unescaped print, css, literal, special chars, msg text/html tag/placeholder, let and param content blocks, log, call, data=all call, foreach, switch) x 4 data strings; four writer models: sticky failure from a symbolically chosen Write call, the same with a symbolic accepted prefix of the failing call (2 data strings), a writer with a symbolic byte capacity that still accepts empty writes once full, and a transient failure of exactly one symbolically chosen call",
     "bounds_thorough": "short writes for all 4 data strings",
     "outside": "templates other than the listed ones; writers that fail and later recover",
-    "assumptions": ["a writer that has failed keeps failing"],
+    "assumptions": ["writer models as listed in bounds; a write that fails accepts a prefix of its argument"],
     "level_text": "Bounded symbolic model checking with the fault schedule as the symbolic input: each Write's outcome is a solver variable, so every failure index (and every accepted-prefix length) of every write site is decided, not sampled.",
     "level_note": "Bounds: the template/data dictionary in evidence.bounds. Trusted: go/ssa, gosym (native replay of every counterexample), z3.",
 }
@@ -67,16 +68,16 @@ PROPS["C12"] = {
 def parse_jobs():
     return [
         Job("parse", "H_validFile", "", workers=1),
-        Job("parse", "H_parseCtx", "0..49,0..1,false", workers=16, maxsteps=300000),
-        Job("parse", "H_exprCtx", "0..17,0..2,false", workers=16, maxsteps=300000),
-        Job("parse", "H_parseCtx", "0..49,2,false", workers=16, maxsteps=300000, note="k=2"),
+        Job("parse", "H_parseCtx", "0..55,0..1,false", workers=16, maxsteps=300000),
+        Job("parse", "H_exprCtx", "0..21,0..2,false", workers=16, maxsteps=300000),
+        Job("parse", "H_parseCtx", "0..55,2,false", workers=16, maxsteps=300000, note="k=2"),
         Job("parse", "H_prefix", "0..738,0", workers=16, maxsteps=600000, note="every prefix"),
         Job("parse", "H_prefix", "0..738,1", tier="thorough", workers=16, maxsteps=600000, note="every prefix + 1 symbolic byte"),
-        Job("parse", "H_parseCtx", "0..49,3,true", tier="thorough", workers=16, maxsteps=300000, note="k=3 ascii"),
-        Job("parse", "H_exprCtx", "0..17,3,true", tier="thorough", workers=16, maxsteps=300000, note="k=3 ascii"),
+        Job("parse", "H_parseCtx", "0..55,3,true", tier="thorough", workers=16, maxsteps=300000, note="k=3 ascii"),
+        Job("parse", "H_exprCtx", "0..21,3,true", tier="thorough", workers=16, maxsteps=300000, note="k=3 ascii"),
     ]
 
-PARSE_BOUNDS_Q = "parse.SoyFile on 50 concrete lexer/parser contexts followed by k <= 2 symbolic bytes (all 256 values); parse.Expr on 18 contexts with k <= 2; every prefix of a 738-byte valid file using every command; step bound 300000 (600000 for prefixes) SSA instructions per path acts as the unwinding assertion"
+PARSE_BOUNDS_Q = "parse.SoyFile on 56 concrete lexer/parser contexts followed by k <= 2 symbolic bytes (all 256 values); parse.Expr on 22 contexts with k <= 2; every prefix of a 738-byte valid file using every command; step bound 300000 (600000 for prefixes) SSA instructions per path acts as the unwinding assertion"
 PARSE_BOUNDS_T = PARSE_BOUNDS_Q + "; thorough adds k = 3 over ASCII for all contexts and every prefix + 1 symbolic byte"
 
 PROPS["C05"] = {
@@ -105,10 +106,11 @@ PROPS["C10"] = {
         Job("soymsg", "H_fp", "0..25", workers=8, qtimeout=3000, allow_inconclusive=True),
         Job("soymsg", "H_id", "0..4,0..2", workers=8, qtimeout=3000, allow_inconclusive=True),
         Job("soymsg", "H_names", "0..9,-1..3", workers=16),
+        Job("soymsg", "H_baseName", "1..4", workers=16, maxfan=16),
         Job("soymsg", "H_fp", "26..40", tier="thorough", workers=8, qtimeout=3000, allow_inconclusive=True, note="3 blocks"),
         Job("soymsg", "H_id", "5..13,0..3", tier="thorough", workers=8, qtimeout=3000, allow_inconclusive=True, note="longer text"),
     ],
-    "bounds_quick": "fingerprint vs the official algorithm for every byte string of each length 0..25 (0, 1 and 2 twelve-byte blocks, every tail length); calcID with symbolic text (<= 4 bytes), description (2 bytes, two independent copies) and meaning (<= 2 bytes); placeholder naming for a dictionary of 10 messages under an arbitrary iteration order of each of the 4 map loops of setPlaceholderNames, one loop at a time",
+    "bounds_quick": "fingerprint vs the official algorithm for every byte string of each length 0..25 (0, 1 and 2 twelve-byte blocks, every tail length); calcID with symbolic text (<= 4 bytes), description (2 bytes, two independent copies) and meaning (<= 2 bytes); base-name derivation (toUpperUnderscore and genBasePlaceholderName) for every identifier of <= 4 characters over {a,b,A,B,1,2,_} against a regexp-free reference; placeholder naming for a dictionary of 10 messages under an arbitrary iteration order of each of the 4 map loops of setPlaceholderNames, one loop at a time",
     "bounds_thorough": "fingerprint lengths up to 40; text up to 13 bytes, meaning up to 3",
     "outside": "strings longer than the bound; collision-freeness (a 63-bit id cannot be injective); the branch hi==0 && lo in {0,1} is a hash pre-image question: explored under a 3 s query timeout and counted as inconclusive when the solver gives up; several map loops permuted at once (only one loop's order influences the result, shown per loop); across-process stability follows from calcID reading nothing but the node",
     "assumptions": ["refFingerprint/refID/refNames (harness) are transliterations of the official SoyMsgIdComputer and MsgNode.genSubstUnitInfo; refID is validated on every run against the official ids pinned in soy's tests"],
@@ -151,6 +153,7 @@ PROPS["C01"] = {
         Job("parse", "H_accept", "0..26,0..32", workers=16),
         Job("parse", "H_quote", "0..3", workers=8),
         Job("parse", "H_unquote", "0..2", workers=8),
+        Job("parse", "H_unquotePre", "1..4,0..3", workers=16),
         Job("parse", "H_scanNumber", "1..4", workers=16),
         Job("parse", "H_quote", "4", tier="thorough", workers=16),
         Job("parse", "H_unquote", "3", tier="thorough", workers=16),
@@ -172,10 +175,10 @@ PROPS["C06"] = {
         Job("soyhtml", "H_evalExpr", "0..13,0..8", workers=8),
         Job("soyhtml", "H_renderFail", "0..11,0..2,false", workers=8),
         Job("soyhtml", "H_renderFail", "0..11,0..2,true", workers=8),
-        Job(".", "H_globals", "0..18,true", workers=8),
-        Job(".", "H_globals", "0..18,false", workers=4),
+        Job(".", "H_globals", "0..28,true", workers=8),
+        Job(".", "H_globals", "0..28,false", workers=4),
     ],
-    "bounds": "every built-in function (and an unknown one) with 0..3 arguments of any of 9 value kinds (third argument int/string/undefined), ints in [-4,4]; every binary operator on every operand kind pair; soyhtml.EvalExpr on every operator with an undefined/erroring/well-typed left operand; 12 failing commands at call depth 0..2 in a bundle with and without a second file that redefines the same template names; soy.ParseGlobals on 19 valid/erroring/malformed definitions; step bound 400000 as unwinding assertion",
+    "bounds": "every built-in function (and an unknown one) with 0..3 arguments of any of 9 value kinds (third argument int/string/undefined), ints in [-4,4]; every binary operator on every operand kind pair; soyhtml.EvalExpr on every operator with an undefined/erroring/well-typed left operand; 12 failing commands at call depth 0..2 in a bundle with and without a second file that redefines the same template names; soy.ParseGlobals on 29 valid/erroring/malformed definitions (incl. truncated escapes and unterminated literals); step bound 400000 as unwinding assertion",
     "outside": "user-registered functions and directives; data recursion deeper than 2; file-system loading",
     "assumptions": ["rand.Int63n returns an arbitrary value in range"],
     "level_text": "Bounded symbolic model checking: ill-typed use is the input space - argument kinds are enumerated, payloads symbolic; an escaping panic, a deadlock or a path exceeding the step bound is an engine verdict that is then reproduced natively.",
@@ -185,10 +188,10 @@ PROPS["C06"] = {
 # ---------------------------------------------------------------- C08
 PROPS["C08"] = {
     "jobs": [
-        Job("soyhtml", "H_pure", "0..2,0..1,false", workers=8),
-        Job("soyhtml", "H_pure", "0..2,0..1,true", workers=8),
+        Job("soyhtml", "H_pure", "0..2,0..1,false,0..5", workers=8),
+        Job("soyhtml", "H_pure", "0..2,0..1,true,0..5", workers=8),
     ],
-    "bounds": "3 two-file template sets covering print, let, if, foreach/ifempty, call with data=all / data=$m / value and content params, msg, css, switch, map and list literals, functions, $ij, and a render that fails half way; data: a symbolic 1-byte string, list of length 0 or 2, nested map; with and without an obligatory print directive; two consecutive renders under frozen memory (one inductive step: no render writes what the next one reads)",
+    "bounds": "3 two-file template sets covering print, let, if, foreach/ifempty, call with data=all / data=$m / value and content params, msg, css, switch, map and list literals, functions, $ij, and a render that fails half way; data: a symbolic 1-byte string, list of length 0 or 2, nested map; with and without an obligatory print directive; a first render, then optionally a render that fails inside a let-content / param-content / log block or a print, or a render into a writer that starts failing at a symbolically chosen write, then two more renders of the first template, all under frozen memory (one inductive step: no render writes what the next one reads; sync.Pool is modelled as a free list whose contents flow between renders); every later render must write the bytes of the first",
     "outside": "user directives/functions that themselves mutate their arguments; templates outside the dictionary; soyjs generation is checked under C09",
     "assumptions": ["frame argument: if no store executed during a render targets memory reachable from the compiled bundle, the data, the injected data or soy's package-level variables, the state seen by the next render is unchanged, for histories of any length"],
     "level_text": "Bounded symbolic model checking of a frame condition: the engine marks every heap cell reachable from the registry, caller data and soy's package-level variables read-only and reports any Store/MapUpdate/in-place append to them during two renders with symbolic data; byte-identical output of the two renders is asserted as well.",
@@ -200,8 +203,8 @@ PROPS["C08"] = {
 PROPS["C09"] = {
     "viol_filter": r"^(?!C13:)",
     "jobs": [
-        Job("soyhtml", "H_pure", "0..2,0..1,false", workers=8),
-        Job("soyhtml", "H_pure", "0..2,0..1,true", workers=8),
+        Job("soyhtml", "H_pure", "0..2,0..1,false,0..5", workers=8),
+        Job("soyhtml", "H_pure", "0..2,0..1,true,0..5", workers=8),
         Job("soyjs", "H_jsPure", "0..2,false", workers=2),
         Job("soyjs", "H_jsPure", "0..2,true", workers=2),
     ],
@@ -216,6 +219,8 @@ PROPS["C09"] = {
 # ---------------------------------------------------------------- C13
 PROPS["C13"] = {
     "jobs": [
+        Job("soyjs", "H_jsPure", "0..2,false", workers=2, note="repeated generation from one registry"),
+        Job("soyjs", "H_jsPure", "0..2,true", workers=2, note="repeated generation from one registry"),
         Job("soyjs", "H_jsOrder", "0..2,-1..3,false", workers=8, timeout=300),
         Job("soyjs", "H_jsOrder", "0..2,-1..3,true", workers=8, timeout=300),
         Job(".", "H_bundle", "0..6,0", workers=8, timeout=400, per_map_site=r"^(ast|data|parse|parsepasses|soyhtml|soyjs|soymsg|template|bundle|globals)"),
@@ -232,11 +237,11 @@ PROPS["C13"] = {
 # ---------------------------------------------------------------- C17
 PROPS["C17"] = {
     "jobs": [
-        Job("parse", "H_roundLeaf", "0..18,0..6", workers=8),
+        Job("parse", "H_roundLeaf", "0..19,0..6", workers=8),
         Job("parse", "H_roundOps", "0..16,0..16,0..2", workers=16),
-        Job("parse", "H_roundPrint", "0..18,0..3", workers=8),
+        Job("parse", "H_roundPrint", "0..19,0..3", workers=8),
     ],
-    "bounds": "expression trees: every leaf kind (ints incl. negative and 2^53, floats incl. integral and exponent forms, bool, null, strings of 1 symbolic byte quoted by the real quoteString, data references with every access kind, globals, function calls, list and map literals, empty literals) alone and under negate/not/index/call/list/map wrappers; every operator (14 binary, 2 unary, ternary) over every operator in every operand position (depth 2); print commands with 0..2 directives with arguments",
+    "bounds": "expression trees: every leaf kind (ints incl. negative and 2^53, floats incl. integral and exponent forms and 16 boundary magnitudes (2^63, 2^64, 1e15..1e22, 1e-7, max, min subnormal), bool, null, strings of 1 symbolic byte quoted by the real quoteString, data references with every access kind, globals, function calls, list and map literals, empty literals) alone and under negate/not/index/call/list/map wrappers; every operator (14 binary, 2 unary, ternary) over every operator in every operand position (depth 2); print commands with 0..2 directives with arguments",
     "outside": "nesting depth > 2 of operators (parenthesisation is decided pairwise, so depth 2 covers each parent/child combination once); strings longer than 1 byte",
     "assumptions": ["sameTree (harness): structural equality ignoring positions and the Quoted/Name presentation fields"],
     "level_text": "Bounded symbolic model checking over expression trees enumerated up to depth 2 with symbolic string bytes: print with the real String methods, parse with the real parser, compare structurally.",
@@ -248,13 +253,14 @@ PROPS["C19"] = {
     "viol_filter": r"^(C19:|harness)",
     "jobs": [
         Job("parse", "H_errpos", "0..11,0..2,4", workers=16),
-        Job("soyhtml", "H_rendererr", "0..2,4", workers=8),
-        Job("parse", "H_parseCtx", "0..49,0..1,false", workers=16, maxsteps=300000),
-        Job("parse", "H_exprCtx", "0..17,0..1,false", workers=16, maxsteps=300000),
-        Job("parse", "H_parseCtx", "0..49,2,false", tier="thorough", workers=16, maxsteps=300000, note="k=2"),
+        Job("soyhtml", "H_rendererr", "0..2,4,false", workers=8),
+        Job("soyhtml", "H_rendererr", "0..2,4,true", workers=8, note="both files in one namespace"),
+        Job("parse", "H_parseCtx", "0..55,0..1,false", workers=16, maxsteps=300000),
+        Job("parse", "H_exprCtx", "0..21,0..1,false", workers=16, maxsteps=300000),
+        Job("parse", "H_parseCtx", "0..55,2,false", tier="thorough", workers=16, maxsteps=300000, note="k=2"),
         Job("parse", "H_errpos", "0..11,0..2,7", tier="thorough", workers=16, note="7 lines"),
     ],
-    "bounds": "parse errors: 12 fault kinds injected on a symbolically chosen line of a 4-line (thorough 7) template body with LF, CRLF and blank-line separators: file name, exact line (point faults) or line within [construct start, end of input] (constructs left open), same numbers in the message text; on the C05 context harnesses (arbitrary symbolic bytes) every parse error carries the given file name and a line within 1..1+count(LF). Render errors: failing command on a symbolically chosen line at call depth 0..2 across two files",
+    "bounds": "parse errors: 12 fault kinds injected on a symbolically chosen line of a 4-line (thorough 7) template body with LF, CRLF and blank-line separators: file name, exact line (point faults) or line within [construct start, end of input] (constructs left open), same numbers in the message text; on the C05 context harnesses (arbitrary symbolic bytes) every parse error carries the given file name and a line within 1..1+count(LF). Render errors: failing command on a symbolically chosen line at call depth 0..2 across two files (in different namespaces and in one shared namespace)",
     "outside": "column numbers are only required to agree between ErrFilePos and the message text; files longer than the bound",
     "assumptions": [],
     "level_text": "Bounded symbolic model checking: the fault position is a solver-chosen value and, on the context harnesses, the whole input suffix is symbolic; position bookkeeping of every error path reached is compared with the injected position.",
@@ -267,6 +273,7 @@ PROPS["C16"] = {
         Job("soyhtml", "H_escapeUri", "0..2", workers=8),
         Job("soyhtml", "H_escapeJs", "0..2,0..4", workers=8),
         Job("soyhtml", "H_truncate", "0..3,0..5,0..2", workers=16),
+        Job("soyhtml", "H_truncate", "5,4,0..1", workers=16, note="ellipsis with multi-byte characters"),
         Job("soyhtml", "H_wordBreaks", "0..3,1..3", workers=16),
         Job("soyhtml", "H_newlineToBr", "0..3", workers=8, maxfan=300),
         Job("soyhtml", "H_chain", "0..4", workers=8),
@@ -275,7 +282,7 @@ PROPS["C16"] = {
         Job("soyhtml", "H_truncate", "4..5,0..8,0..2", tier="thorough", workers=16),
         Job("soyhtml", "H_newlineToBr", "4", tier="thorough", workers=16, maxfan=300),
     ],
-    "bounds_quick": "escapeUri: every string of <= 2 bytes (all 256 values); escapeJsString: <= 2 ASCII bytes (incl. controls) optionally with one of U+00E9/U+2028/U+2029/U+FEFF; truncate: valid UTF-8 strings of <= 3 bytes, limit 0..5, ellipsis default/true/false; insertWordBreaks:k (k 1..3) on <= 3 ASCII bytes; changeNewlineToBr on every string of length <= 3 over {a,<,&,LF,CR,space} (regexp runs natively on concrete text); 5 chains of two directives through parser and renderer",
+    "bounds_quick": "escapeUri: every string of <= 2 bytes (all 256 values); escapeJsString: <= 2 ASCII bytes (incl. controls) optionally with one of U+00E9/U+2028/U+2029/U+FEFF; truncate: valid UTF-8 strings of <= 3 bytes, limit 0..5, ellipsis default/true/false, and 5-byte strings with limit 4 and the ellipsis on; insertWordBreaks:k (k 1..3) on <= 3 ASCII bytes; changeNewlineToBr on every string of length <= 3 over {a,<,&,LF,CR,space} (regexp runs natively on concrete text); 5 chains of two directives through parser and renderer",
     "bounds_thorough": "escapeUri 3 bytes; escapeJsString 3 bytes; truncate strings of <= 5 bytes with limits 0..8; changeNewlineToBr length 4",
     "outside": "|json (encoding/json works through reflection: outside the engine); the JavaScript counterparts in soyutils.js (no JavaScript semantics in the engine); bidi directives (unimplemented in soy); longer strings",
     "assumptions": ["refJSString (harness): reference decoder of ECMAScript string literal bodies, rejecting raw quotes, line terminators, control characters and < > &"],
@@ -319,13 +326,15 @@ PROPS["C02"] = {
 PROPS["C07"] = {
     "jobs": [
         Job("soyhtml", "H_datarefs", "2,2,true,true", workers=16, timeout=900),
-        Job("soyhtml", "H_datarefs", "1,2,false,true", workers=16, timeout=900),
+        Job("soyhtml", "H_datarefsLate", "1,2,1", workers=16, timeout=900),
         Job("soyhtml", "H_bothParamStyles", "0..2", workers=2),
         Job("soyhtml", "H_datarefs", "2,3,true,true", tier="thorough", workers=16, timeout=3000),
+        Job("soyhtml", "H_datarefs", "1,2,false,true", tier="thorough", workers=16, timeout=3000),
+        Job("soyhtml", "H_datarefsLate", "1,2,2", tier="thorough", workers=16, timeout=3000),
         Job("soyhtml", "H_datarefs", "2,2,true,false", tier="thorough", workers=16, timeout=3000),
         Job("soyhtml", "H_datarefs", "2,2,false,false", tier="thorough", workers=16, timeout=3000),
     ],
-    "bounds_quick": "bundles generated around binding structure: a template with params l, m and (by configuration) a / optional b, a body of at most 2 generated nodes up to nesting depth 2 among print ($a,$b,$c,$i,$ij.x), let value / let content (names a, c, ij), if, foreach, call (existing callee with optional params, callee with a required param, missing callee; data none/all/$m; param k, undeclared zz, required q; value or content param) plus a fixed trailer; CheckDataRefs accepts exactly the bundles the declarative rule set accepts; for accepted bundles a render with every declared param supplied triggers the lookup observer (hook) only for optional params a callee was not passed; both-param-styles rule on 3 concrete templates",
+    "bounds_quick": "bundles generated around binding structure: a template with params l, m and (by configuration) a / optional b, a body of at most 2 generated nodes up to nesting depth 2 among print ($a,$b,$c,$i,$ij.x), let value / let content (names a, c, ij), if, foreach, call (existing callee with optional params, callee with a required param, missing callee; data none/all/$m; param k, undeclared zz, required q; value or content param) plus a fixed trailer; CheckDataRefs accepts exactly the bundles the declarative rule set accepts; for accepted bundles a render with every declared param supplied triggers the lookup observer (hook) only for optional params a callee was not passed; the same bundles followed or preceded by a template with an unused param (state carried from one template's check to the next); both-param-styles rule on 3 concrete templates",
     "bounds_thorough": "3 generated nodes; the other param-declaration configurations",
     "outside": "bundles beyond the size bound; {msg} bodies; several files/namespaces (the rules are per template and callee lookup is by qualified name)",
     "assumptions": ["c07Check (harness) is a declarative transcription of the rules in the property statement: references resolve to the innermost enclosing let defined earlier, a loop variable inside its loop, a declared param, or $ij; data=\"all\" forwards params (never lets) and counts as their use"],
@@ -338,8 +347,9 @@ PROPS["C11"] = {
     "jobs": [
         Job("soymsg/pomsg", "H_roundtrip", "0..5,0..2,0..2", workers=16, timeout=900),
         Job("soymsg/pomsg", "H_plural", "1..3", workers=8, timeout=600),
+        Job("soymsg/pomsg", "H_catalogue", "0..3", workers=8, timeout=600),
     ],
-    "bounds": "6 messages (text only; text + placeholders; repeated equal expressions; html tags; two expressions that differ only in parenthesisation; colliding placeholder base names) in 3 contexts (plain, inside a foreach, inside a called template) x 3 catalogues built with the real extraction functions (pomsg.Validate/Msgid/MsgidPlural -> newMessage -> soymsg.Parts): identity, parts reversed, message absent; data: symbolic int in [0,2] and a symbolic byte from {a,b,c,<}; plural message with {case 1}+{default} under catalogues with 1, 2 and 3 plural forms where the bundle's PluralCase returns an arbitrary index below the number of forms, or the English rule",
+    "bounds": "6 messages (text only; text + placeholders; repeated equal expressions; html tags; two expressions that differ only in parenthesisation; colliding placeholder base names) in 3 contexts (plain, inside a foreach, inside a called template) x 3 catalogues built with the real extraction functions (pomsg.Validate/Msgid/MsgidPlural -> newMessage -> soymsg.Parts): identity, parts reversed, message absent; data: symbolic int in [0,2] and a symbolic byte from {a,b,c,<}; a three-message bundle (plural + two plain) loaded through the real newBundle from PO entries in 4 orders; plural message with {case 1}+{default} under catalogues with 1, 2 and 3 plural forms where the bundle's PluralCase returns an arbitrary index below the number of forms, or the English rule",
     "outside": "PO text syntax and file loading (robfig/gettext/po), locale fallback (x/text/language), the xgettext-soy main wrapper (its extract function is three calls which the harness mirrors), the JavaScript backend (no JS semantics in the engine); messages outside the dictionary; soymsg.Parts runs its regexp natively on concrete text",
     "assumptions": ["the expected value of a placeholder is what the real renderer prints for a template consisting of that expression alone (the evaluator itself is checked under C01)"],
     "level_text": "Bounded symbolic model checking of the extraction -> catalogue -> render pipeline for a message dictionary with symbolic data and a symbolic plural-form index: translated output is compared with the composition of the parts' own renderings.",
